@@ -422,7 +422,9 @@ def _index(case, ctx, g):
     kinds = [IX.kind(e) for e in case["idx"]]
     cell = {"shape": shape, "kinds": kinds, "rep": case["rep"]}
     try:
+        _before = [(e, e.clone()) for e in idx if torch.is_tensor(e)]
         sub = d[idx_arg]
+        ctx.expect("index_tensors_not_mutated", all(torch.equal(e, c_) for e, c_ in _before), f"d[{case['idx']}] changed the caller's index tensor in place")
         got_mean, got_cov = sub.mean, sub.covariance_matrix
     except Exception as e:
         ctx.fail("index_raises", f"d[{case['idx']}] raised {type(e).__name__}: {str(e)[:160]}", "raise", exc=type(e).__name__, kinds=kinds)
